@@ -134,3 +134,111 @@ def run(ctx, quick=True):
                     return n_eval, True
     ctx.corr["rtindex"] = stats
     return n_eval, False
+
+
+# ------------------------------------------------------------------ DynArray mutators x location (session 3, seeded change C10_m7)
+# Storage and transient storage number their slots independently: a transient variable and a storage variable legitimately
+# carry the SAME slot numbers.  Every mutator of a DynArray (append, pop, element write, whole assignment) on the variable of one
+# address space must leave every variable of the other one alone and read back what was written -- for one-slot and multi-slot
+# element types.  All observations come back as return values (source-level oracle, no journal).
+_ELEMS = [("uint256", "v", "uint256", lambda v: [v]),
+          ("uint256[2]", "[v, v + 1]", "uint256[2]", lambda v: [v, v + 1]),
+          ("P", "P(a=v, b=v + 2)", "P", lambda v: [v, v + 2]),
+          ("Q", "Q(a=v)", "Q", lambda v: [v])]
+
+
+def _mut_source(k):
+    ety, mk, _, _ = _ELEMS[k]
+    if ety == "uint256":
+        rd = lambda e: [e]                                                        # noqa
+    elif ety == "uint256[2]":
+        rd = lambda e: [f"{e}[0]", f"{e}[1]"]                                      # noqa
+    elif ety == "P":
+        rd = lambda e: [f"{e}.a", f"{e}.b"]                                        # noqa
+    else:
+        rd = lambda e: [f"{e}.a"]                                                  # noqa
+    w = len(rd("x"))
+    obs_t = ", ".join(["uint256"] * (6 + 2 * w))
+
+    def body(loc, op):
+        me, other = ("self.tarr", "self.sarr") if loc == "t" else ("self.sarr", "self.tarr")
+        lines = ["    self.sb = 11", "    self.sa = 12", "    self.tb = 21", "    self.ta = 22",
+                 f"    self.sarr = [{mk.replace('v', '100')}, {mk.replace('v', '200')}]",
+                 f"    self.tarr = [{mk.replace('v', '300')}, {mk.replace('v', '400')}]"]
+        if op == "append":
+            lines.append(f"    {me}.append({mk})")
+        elif op == "pop":
+            lines.append(f"    {me}.pop()")
+        elif op == "set":
+            lines.append(f"    {me}[1] = {mk}")
+        elif op == "assign":
+            lines.append(f"    {me} = [{mk}]")
+        lines.append("    n_s: uint256 = len(self.sarr)")
+        lines.append("    n_t: uint256 = len(self.tarr)")
+        last_s = rd("self.sarr[n_s - 1]")
+        last_t = rd("self.tarr[n_t - 1]")
+        lines.append("    return self.sb, self.sa, self.tb, self.ta, n_s, n_t, " + ", ".join(last_s + last_t))
+        return "\n".join(lines)
+    fns = []
+    for loc in ("s", "t"):
+        for op in ("append", "pop", "set", "assign"):
+            fns.append(f"@external\ndef {loc}_{op}(v: uint256) -> ({obs_t}):\n{body(loc, op)}\n")
+    return ("struct P:\n    a: uint256\n    b: uint256\n\nstruct Q:\n    a: uint256\n\n"
+            f"sb: uint256\nsarr: DynArray[{ety}, 4]\nsa: uint256\ntb: transient(uint256)\ntarr: transient(DynArray[{ety}, 4])\nta: transient(uint256)\n\n"
+            + "\n".join(fns)), w
+
+
+def run_mutators(ctx, quick=True):
+    """-> (evaluations, found)"""
+    from eth_abi import encode
+    from vyper.utils import method_id
+    from .configs import Config
+    rnd = ctx.rng("mutators")
+    cfgs = [Config(False, "gas", "cancun"), Config(True, "gas", "cancun"), Config(False, "none", "prague"), Config(True, "O3", "prague"),
+            Config(True, "none", "cancun"), Config(True, "codesize", "prague")]
+    n_eval = 0
+    stats = {"contracts": 0, "calls": 0}
+    for k in range(len(_ELEMS)):
+        src, w = _mut_source(k)
+        enc = _ELEMS[k][3]
+        use = cfgs if not quick else [cfgs[k % 2], cfgs[1], cfgs[2 + (k % 4)]]
+        for cfg in {c.name: c for c in use}.values():
+            try:
+                out = compile_src(src, cfg)
+            except Exception as e:  # noqa: C20's business
+                stats["compile_failed"] = stats.get("compile_failed", 0) + 1
+                continue
+            stats["contracts"] += 1
+            ch = Chain(cfg.evm)
+            addr = ch.deploy(bytes.fromhex(out["bytecode"][2:]))
+            if addr is None:
+                continue
+            for loc in ("s", "t"):
+                for op in ("append", "pop", "set", "assign"):
+                    v = rnd.randrange(1000, 2 ** 200)
+                    r = ch.call(addr, method_id(f"{loc}_{op}(uint256)") + encode(["uint256"], [v]))
+                    stats["calls"] += 1
+                    n_eval += 1
+                    s_arr, t_arr = [enc(100), enc(200)], [enc(300), enc(400)]
+                    me = s_arr if loc == "s" else t_arr
+                    if op == "append":
+                        me.append(enc(v))
+                    elif op == "pop":
+                        me.pop()
+                    elif op == "set":
+                        me[1] = enc(v)
+                    else:
+                        me[:] = [enc(v)]
+                    want = [11, 12, 21, 22, len(s_arr), len(t_arr)] + [x % 2 ** 256 for x in s_arr[-1] + t_arr[-1]]
+                    got = [int.from_bytes(r.out[j:j + 32], "big") for j in range(0, len(r.out), 32)] if r.ok else None
+                    if got != want:
+                        names = ["sb", "sa", "tb", "ta", "len(sarr)", "len(tarr)"] + [f"sarr[-1].{i}" for i in range(w)] + [f"tarr[-1].{i}" for i in range(w)]
+                        diff = "REVERT" if got is None else ", ".join(f"{n}={g:#x} (expected {x:#x})" for n, g, x in zip(names, got, want) if g != x)
+                        ctx.violation("failing-input", f"DynArray mutator on one address space disturbs the other / does not read back: {loc}_{op}: {diff}",
+                                      {"source": src, "config": cfg.name, "call": f"{loc}_{op}({v})", "element_type": _ELEMS[k][0],
+                                       "observed": got, "expected": want},
+                                      key=f"C10:mutator:{_ELEMS[k][0]}:{loc}_{op}")
+                        ctx.corr["dynarray_mutators"] = stats
+                        return n_eval, True
+    ctx.corr["dynarray_mutators"] = stats
+    return n_eval, False
